@@ -72,7 +72,7 @@ def maxOnceAll (f : List (List Float)) (nObj : Nat) : Bool :=
     let mx := col.getD (argmaxFirst col) 0.0
     (col.filter fun x => !(x < mx)).length ≤ 1
 
-/-- executable hypotheses of `C13d.pcdKernelF_safe`: rectangular front, every maximum attained once,
+/-- executable hypotheses of `C13.pcdKernelF_safe`: rectangular front, every maximum attained once,
 and no more removals than there are non-extreme points -/
 def pcdSafeHyp (f : List (List Float)) (nObj : Nat) (nRemove : Int) : Bool :=
   let n := f.length
@@ -105,9 +105,9 @@ def compCrowd3 : P String := do
         return s!"err functional pcd kernel ok={okF} but the interpreter logged {errs.size} out-of-bounds accesses"
       if okF && (dF.map fun (x : Ext Float) => x.toFloat.toBits) != (dI.map fun (x : Ext Float) => x.toFloat.toBits) then
         return "err functional pcd kernel and array interpreter disagree on the crowding values"
-      -- hypotheses of C13d.pcdKernelF_safe ⇒ ok
+      -- hypotheses of C13.pcdKernelF_safe ⇒ ok
       if pcdSafeHyp f nObj nRemove && !okF then
-        return "err functional pcd kernel leaves its arrays although MaxOnce and the removal budget hold (contradicts C13d.pcdKernelF_safe)"
+        return "err functional pcd kernel leaves its arrays although MaxOnce and the removal budget hold (contradicts C13.pcdKernelF_safe)"
     return s!"ok {bOut ties} | {crowdOne label metric true false nRemove f} | {crowdOne label metric false false nRemove f} | {crowdOne label metric true true nRemove f} | {crowdOne label metric false true nRemove f}"
 
 end Pymoode.Drv
